@@ -15,6 +15,13 @@ RECORDED_FAILURE = {"025_missing_match": "failed"}
 RECORDED_GO_REJECT = {"058_lowercase_constructors"}
 
 
+def normalise_recording(b):
+    """The recorded outputs predate the `fix:` of float*_to_string (%d -> %v): real Go printed `%!d(float32=3.5)`, whose
+    payload 3.5 is exactly what %v prints.  Comparing against the payload keeps the recording usable as an oracle."""
+    import re
+    return re.sub(rb"%!d\(float(?:32|64)=([^)]*)\)", rb"\1", b)
+
+
 def calibrate():
     """GoSem on the *recorded* .go files must reproduce the recorded outputs; otherwise my Go semantics is wrong (exit 2)."""
     recs = []
@@ -51,7 +58,7 @@ def run(tier, rep):
         if c["out"] is None or c["name"] in RECORDED_GO_REJECT:
             continue
         cases.append({"id": "corpus:" + c["name"], "path": c["src"], "family": "corpus", "name": c["name"],
-                      "expect_out": open(c["out"], "rb").read()})
+                      "expect_out": normalise_recording(open(c["out"], "rb").read())})
     st = engine.evaluate(cases, static=False, sem=True, maxsteps=60000, name="c01-corpus")
     ok = unsup = 0
     for c in cases:
